@@ -26,6 +26,9 @@ fn main() {
             dump::dump();
             return;
         }
+        Some("ddata") => {
+            writeln!(out, "{}", gen_dec::ddata(&util::unhex(&args[2]))).unwrap();
+        }
         Some("enc") => {
             // dmh enc <modes> <maskhex> <macro> <fnc1> <eci|-> <inputhex>: replay one encoder case
             let c = enc::Case {
@@ -41,7 +44,7 @@ fn main() {
         }
         Some("gen") => match args.get(2).map(|s| s.as_str()) {
             Some("c12") => gen_c12::gen(&mut out, seed, thorough),
-            Some(w @ ("c01" | "c02" | "c13" | "c16" | "c18" | "c19" | "c11")) => gen_enc::gen(&mut out, w, seed, thorough),
+            Some(w @ ("c01" | "c02" | "c10" | "c13" | "c16" | "c18" | "c19" | "c11")) => gen_enc::gen(&mut out, w, seed, thorough),
             Some("c05d") => gen_dec::gen_c05(&mut out, seed, thorough),
             Some("c14") => gen_dec::gen_c14(&mut out, seed, thorough),
             Some("c17") => gen_c17::gen(&mut out, seed, thorough),
